@@ -302,6 +302,20 @@ def mk_fn(name, *args):
     return T("f", (name,) + tuple(args))
 
 
+def mk_fi(name, *args):
+    """Integer-valued uninterpreted function / read of an integer array."""
+    return T("fi", (name,) + tuple(args))
+
+
+def mk_sum(bv, lo, hi, body):
+    """sum_{bv = lo}^{hi-1} body   (bv: an integer variable term that occurs free in body only)."""
+    if body is ZERO:
+        return ZERO
+    if bv not in subterms(body).values():
+        return mk_mul(mk_add(hi, mk_neg(lo)), body)
+    return T("sum", (bv, lo, hi, body))
+
+
 def mk_ite(c, a, b):
     if c is TRUE:
         return a
@@ -457,6 +471,10 @@ def rebuild(op, args):
         return mk_pow(*args)
     if op == "f":
         return mk_fn(*args)
+    if op == "fi":
+        return mk_fi(*args)
+    if op == "sum":
+        return mk_sum(*args)
     if op == "ite":
         return mk_ite(*args)
     if op == "<":
@@ -577,6 +595,10 @@ def diff(t, x, cache=None):
                 r = mk_add(*parts) if parts else ZERO
         elif op == "ite":
             r = mk_ite(u.args[0], d(u.args[1]), d(u.args[2]))
+        elif op == "fi":
+            r = ZERO
+        elif op == "sum":
+            r = mk_sum(u.args[0], u.args[1], u.args[2], d(u.args[3]))
         else:
             raise ValueError("cannot differentiate boolean term %s" % op)
         cache[u.id] = r
@@ -668,6 +690,23 @@ def evaluate(t, env, mp=None):
                     r = conv(Q(13, 10)) + (math.sin(acc) if mp is None else mp.sin(acc))
         elif op == "ite":
             r = ev(u.args[1]) if ev(u.args[0]) else ev(u.args[2])
+        elif op == "fi":
+            name = u.args[0]
+            a = [ev(z) for z in u.args[1:]]
+            key = ("fn", name)
+            if key in env:
+                r = env[key](*[int(x) for x in a])
+            else:
+                import zlib
+                r = (zlib.crc32(name.encode()) + sum(7 * (i_ + 1) * int(x) for i_, x in enumerate(a))) % 5
+        elif op == "sum":
+            bv, lo, hi, body = u.args
+            lo_, hi_ = int(ev(lo)), int(ev(hi))
+            r = conv(Q(0))
+            for k_ in range(lo_, hi_):
+                env2 = dict(env)
+                env2[bv.args[0]] = k_
+                r = r + evaluate(body, env2, mp)
         elif op == "<":
             r = ev(u.args[0]) < ev(u.args[1])
         elif op == "<=":
@@ -732,6 +771,23 @@ def show(t, limit=400):
                 if i:
                     w(", ")
                 go(a)
+            w(")")
+        elif op == "fi":
+            w(u.args[0] + "[")
+            for i, a in enumerate(u.args[1:]):
+                if i:
+                    w(", ")
+                go(a)
+            w("]")
+        elif op == "sum":
+            w("sum(")
+            go(u.args[0])
+            w("=")
+            go(u.args[1])
+            w("..")
+            go(u.args[2])
+            w(": ")
+            go(u.args[3])
             w(")")
         elif op == "ite":
             w("ite(")
